@@ -447,6 +447,7 @@ func (r *runner) allModules(label string) {
 			}
 		}
 	}
+	checkInvariants(r.run, e, e.at(e.height), map[string]any{"powers": e.powers, "ops": r.ops, "then": "all modules"})
 	r.run.Case("C09.CBlocks "+emit.List(outs), len(r.msgs) > 0, nil)
 }
 
@@ -597,15 +598,39 @@ func TestCorr(t *testing.T) {
 		if err != nil {
 			t.Fatal(err)
 		}
-		var c struct {
-			Powers []int64 `json:"powers"`
-			Ops    []hop   `json:"ops"`
+		var kind struct {
+			Kind string `json:"kind"`
 		}
-		if err := json.Unmarshal(bz, &c); err != nil {
-			t.Fatalf("%s: %v", p, err)
+		_ = json.Unmarshal(bz, &kind)
+		switch kind.Kind {
+		case "attest-history":
+			var c struct {
+				Powers []int64 `json:"powers"`
+				Ops    []xhop  `json:"ops"`
+			}
+			if err := json.Unmarshal(bz, &c); err != nil {
+				t.Fatalf("%s: %v", p, err)
+			}
+			newARunner(t, run, c.Powers).history(c.Ops)
+		case "skyway-history":
+			var c struct {
+				Ops []yhop `json:"ops"`
+			}
+			if err := json.Unmarshal(bz, &c); err != nil {
+				t.Fatalf("%s: %v", p, err)
+			}
+			skyHistory(t, run, c.Ops)
+		default:
+			var c struct {
+				Powers []int64 `json:"powers"`
+				Ops    []hop   `json:"ops"`
+			}
+			if err := json.Unmarshal(bz, &c); err != nil {
+				t.Fatalf("%s: %v", p, err)
+			}
+			rr := newRunner(t, run, c.Powers)
+			rr.history(c.Ops, true)
 		}
-		rr := newRunner(t, run, c.Powers)
-		rr.history(c.Ops, true)
 		run.Count("source", "corpus")
 	}
 
@@ -652,7 +677,33 @@ func TestCorr(t *testing.T) {
 		run.Count("source", map[bool]string{true: "hostile", false: "mostly-valid"}[hostile])
 	}
 
-	if err := run.Finish("Sys.EndBlock Corr.C09", "C09.case", "C09.check"); err != nil {
+	// ---- second round: attestation / pruning histories, the skyway end-blocker, isNewSnapshotWorthy ----
+	na := run.N / 2
+	for i := 0; i < na; i++ {
+		nv := 3 + run.Rng.Intn(3)
+		powers := make([]int64, nv)
+		for j := range powers {
+			powers[j] = int64(1 + run.Rng.Intn(20))
+			if run.Rng.Intn(3) == 0 {
+				powers[j] = 10
+			}
+		}
+		ops := genAttestHistory(run, nv)
+		ar := newARunner(t, run, powers)
+		ar.history(ops)
+		if i%5 == 0 {
+			checkInvariants(run, ar.e, ar.e.at(ar.e.height), map[string]any{"kind": "attest-history", "powers": powers, "ops": ar.ops})
+			worthyCases(run, ar.e)
+		}
+		run.Count("source", "attest-history")
+	}
+	ns := run.N / 6
+	for i := 0; i < ns; i++ {
+		skyHistory(t, run, genSkyHistory(run))
+		run.Count("source", "skyway-history")
+	}
+
+	if err := run.Finish("Sys.EndBlock Sys.EndBlockAttest Sys.EndBlockMods Corr.C09", "C09.case", "C09.check"); err != nil {
 		t.Fatal(err)
 	}
 }
